@@ -472,7 +472,16 @@ func (s *scope) Capabilities() Capabilities {
 func (s *scope) Snapshot() Snapshot {
 	snap := newSnapshot()
 
+	// n.b. The registry holds a scope once per key it is registered under (the
+	//      root sits in every bucket), each scope contributes once.
+	visited := make(map[*scope]struct{})
+
 	s.registry.ForEachScope(func(ss *scope) {
+		if _, ok := visited[ss]; ok {
+			return
+		}
+		visited[ss] = struct{}{}
+
 		// NB(r): tags are immutable, no lock required to read.
 		tags := make(map[string]string, len(s.tags))
 		for k, v := range ss.tags {
@@ -483,6 +492,13 @@ func (s *scope) Snapshot() Snapshot {
 		for key, c := range ss.counters {
 			name := ss.fullyQualifiedName(key)
 			id := KeyForPrefixedStringMap(name, tags)
+			// n.b. Two scopes can hold a metric with the same full name and tags
+			//      ("a.b" on a scope and "b" on its subscope "a"): the entry shows
+			//      their combined value rather than whichever was visited last.
+			if prev, ok := snap.counters[id].(*counterSnapshot); ok {
+				prev.value += c.snapshot()
+				continue
+			}
 			snap.counters[id] = &counterSnapshot{
 				name:  name,
 				tags:  tags,
@@ -505,6 +521,10 @@ func (s *scope) Snapshot() Snapshot {
 		for key, t := range ss.timers {
 			name := ss.fullyQualifiedName(key)
 			id := KeyForPrefixedStringMap(name, tags)
+			if prev, ok := snap.timers[id].(*timerSnapshot); ok {
+				prev.values = append(prev.values, t.snapshot()...)
+				continue
+			}
 			snap.timers[id] = &timerSnapshot{
 				name:   name,
 				tags:   tags,
@@ -516,6 +536,21 @@ func (s *scope) Snapshot() Snapshot {
 		for key, h := range ss.histograms {
 			name := ss.fullyQualifiedName(key)
 			id := KeyForPrefixedStringMap(name, tags)
+			if prev, ok := snap.histograms[id].(*histogramSnapshot); ok {
+				for bound, samples := range h.snapshotValues() {
+					if prev.values == nil {
+						prev.values = make(map[float64]int64)
+					}
+					prev.values[bound] += samples
+				}
+				for bound, samples := range h.snapshotDurations() {
+					if prev.durations == nil {
+						prev.durations = make(map[time.Duration]int64)
+					}
+					prev.durations[bound] += samples
+				}
+				continue
+			}
 			snap.histograms[id] = &histogramSnapshot{
 				name:      name,
 				tags:      tags,
